@@ -172,6 +172,45 @@ def classify(step):
     return None
 
 
+def classify_rekey(steps, i):
+    """Signature of the second recorded finding: after a Veryl.toml [build] change, `veryl check`
+    (which never emits) saves the manifest under the NEW key with every file cached; the next
+    `veryl build` then finds hash + fragment + an output stamp from the OLD options and restores
+    files whose emitted SV depends on the changed option.  Verified on the history: the run and its
+    reference both succeed with equal diagnostics; every differing output belongs to a source that
+    this step did not edit; the last [build] change lies before this step and every command since
+    then (before this one) was a `check`."""
+    st = steps[i]
+    w, c = st["warm"], st["clean"]
+    if st["cmd"] != "build" or c is None or w["rc"] != 0 or c["rc"] != 0 or w["diags"] != c["diags"] or w["panic"]:
+        return None
+    diff = [k for k in set(w["snap"]) | set(c["snap"]) if w["snap"].get(k) != c["snap"].get(k)]
+    if not diff or any(not (k.endswith(".sv") or k.endswith(".sv.map")) for k in diff):
+        return None
+    def eff(j):
+        return proj.effective_build(steps[j].get("opts") or {})
+
+    def files_at(j):
+        return steps[j].get("files") or proj.base_files()
+    last_change = None
+    for j in range(1, i + 1):
+        if eff(j) != eff(j - 1):
+            last_change = j
+    if last_change is None:
+        return None
+    # the first SUCCESSFUL command under the new options must be a `check` (it re-keys without emitting)
+    first_ok = next((j for j in range(last_change, i + 1) if steps[j]["warm"]["rc"] == 0), None)
+    if first_ok is None or first_ok == i or steps[first_ok]["cmd"] != "check":
+        return None
+    # every differing output belongs to a source whose text never changed since before the option change
+    for k in diff:
+        src = (k[:-3] if k.endswith(".sv") else k[:-7]) + ".veryl"
+        base = files_at(last_change - 1).get(src)
+        if base is None or any(files_at(j).get(src) != base for j in range(last_change, i + 1)):
+            return None
+    return "toml-change:check-rekeys-cache:next-build-restores-stale-outputs"
+
+
 def run(ctx):
     ok = lean_check(ctx, "VerylModel.Props.C04", THEOREMS)
     ctx.cov["trusted_base"] = [
@@ -208,7 +247,7 @@ def run(ctx):
                     "restored_some" if w["restored"][0] else "restored_none", 0) + 1
             ctx.distinct((tuple(st["edits"]), st["cmd"], w["rc"], tuple(w["diags"]), tuple(sorted(w["snap"].items()))))
             d = differs(st)
-            key = classify(st) if d else None
+            key = (classify(st) or classify_rekey(steps, i)) if d else None
             if d and key and any(f.get("key") == key and f.get("kind") == "known" for f in ctx.findings):
                 ctx.violation(d, {}, key=key)      # listed finding: KNOWN-FINDING line, no replay
                 continue
